@@ -636,7 +636,7 @@ def run(ctx):
         for kind, n in (('eol', ctx.scale(3, 40)), ('lumped', ctx.scale(3, 40)), ('att_in', ctx.scale(3, 40)),
                         ('voa_margin', ctx.scale(4, 60)), ('raman', ctx.scale(3, 40))):
             cases += [gen_case(rng, kind) for _ in range(n)]
-    terms, meta = [], []
+    terms, meta, replay_sims = [], [], []
     import time
     t0 = t_prev = time.time()
     for case in cases:
@@ -646,6 +646,12 @@ def run(ctx):
             print('case', case.get('kind'), case.get('_corpus'), 'prev took', round(tc - t_prev, 1), flush=True)
         t_prev = tc
         ctx.count('kind_' + case.get('kind', 'valid'))
+        if case.get('kind') == 'multiband_example':       # replay of a multiband finding
+            run_multiband(ctx, bool(case.get('sim_params')))
+            continue
+        if 'lines' not in case:                            # replay of a SimParams-only record
+            replay_sims.append(case.get('simparams'))
+            continue
         # ---- SimParams in force
         set_simparams(case.get('simparams'))
         v_before = simparams_vars()
@@ -727,6 +733,7 @@ def run(ctx):
                     continue
                 exported = {e['uid']: e for e in res['json'][k]['elements'] if e['type'] == 'Edfa'}
                 terms.append(term)
+                ctx.count('amp_lines_to_model_round%d' % (k + 1))
                 meta.append((sc, k, ln, [amp_s(a) for a in amps], exported))
     ctx.extra['t_drive'] = round(time.time() - t0, 1)
     t0 = time.time()
@@ -768,7 +775,7 @@ def run(ctx):
         if ctx.thorough or os.environ.get('VERIF_C17_MB_RAMAN'):
             run_multiband(ctx, True)
     # ---- SimParams walk: model vs implementation
-    sims = [None] + [gen_simparams(rng) for _ in range(ctx.scale(5, 40))]
+    sims = replay_sims if ctx.replay else [None] + [gen_simparams(rng) for _ in range(ctx.scale(5, 40))]
     sterms, smeta = [], []
     for sp in sims:
         start, during, after = simparams_trace(sp)
